@@ -174,7 +174,7 @@ func c09Chain(d int, raise string, h int, hc string, handlerReturns bool, inLoop
 }
 
 func checkC09(c *Ctx) {
-	c.rule = "programs: (a) fixed families: call chains of depth 0..4 whose innermost body raises one of 16 raise kinds (a constructor called with too few arguments / whose body raises / faults, 抛出 of 异常 / custom type, ÷0, index, key, undefined name, type error, failing 转换数值, missing method, arity, malformed % template, % argument count, number-like invalid identifier - the last three only judged where no handler of 异常 is on the way) optionally inside a loop, with a matching or non-matching handler (preceded by a wrong-class handler) at every level 0..depth, with/without 输出 in the handler, function or type-method callers; marks before/after every call, follow-up probes of locals, parameters, 其 and a further call after the handler ran; variants probing callee locals that must be undefined; nested families where the handler itself raises and a handler further out takes over; (b) random programs with 抛出, runtime faults, handlers on methods and program. Oracle: reference evaluator; plus quiescent invariants after every successful run: call stack empty and every module scope at depth 0 (hooks H3/H4). distinct_nontrivial = distinct (family parameters / feature set, outcome kind)"
+	c.rule = "programs: (a) fixed families: call chains of depth 0..4 whose innermost body raises one of 16 raise kinds (a constructor called with too few arguments / whose body raises / faults, 抛出 of 异常 / custom type, ÷0, index, key, undefined name, type error, failing 转换数值, missing method, arity, malformed % template, % argument count, number-like invalid identifier - the last three only judged where no handler of 异常 is on the way) optionally inside a loop, with a matching or non-matching handler (preceded by a wrong-class handler) at every level 0..depth, with/without 输出 in the handler, function or type-method callers; marks before/after every call, follow-up probes of locals, parameters, 其 and a further call after the handler ran; variants probing callee locals that must be undefined; nested families where the handler itself raises and a handler further out takes over; (b) random programs with 抛出, runtime faults, handlers on methods and program; (c) uncaught custom exceptions whose 内容 is a text, integer, boolean, list, dictionary or decimal, raised directly, through one / two methods or from a handler: the program ends with that value as its message (written down for texts and integers, non-empty otherwise). Oracle: reference evaluator; plus quiescent invariants after every successful run: call stack empty and every module scope at depth 0 (hooks H3/H4). distinct_nontrivial = distinct (family parameters / feature set, outcome kind)"
 	c.assumptions = []string{"message text of runtime faults is not compared (U7)", "handlers only use 其, parameters and literals (U1)"}
 	rng := c.Rand("c09")
 	var progs []*zr.Program
